@@ -2,8 +2,10 @@ package props
 
 import (
 	"encoding/json"
+	"fmt"
 	"testing"
 
+	bexpr "github.com/hashicorp/go-bexpr"
 	"pgregory.net/rapid"
 
 	"verif/harness/bx"
@@ -78,13 +80,16 @@ func c04Check(t failer, test string, c *c04Case, ch bx.Chooser) map[bx.Op]ref.Se
 }
 
 func init() {
-	replayers["TestC04_Complement"] = func(t *testing.T, raw json.RawMessage) {
-		var c c04Case
-		if err := json.Unmarshal(raw, &c); err != nil {
-			t.Fatalf("bad case: %v", err)
+	for _, n := range []string{"TestC04_Complement", "TestC04_Matrix"} {
+		n := n
+		replayers[n] = func(t *testing.T, raw json.RawMessage) {
+			var c c04Case
+			if err := json.Unmarshal(raw, &c); err != nil {
+				t.Fatalf("bad case: %v", err)
+			}
+			c04Check(t, n, &c, bx.Zero{})
+			t.Logf("replay ok")
 		}
-		c04Check(t, "TestC04_Complement", &c, bx.Zero{})
-		t.Logf("replay ok")
 	}
 }
 
@@ -127,4 +132,35 @@ func TestC04_Complement(t *testing.T) {
 		r.Case(c.Debug+"\x00"+root.String()+o.String(), nt, map[string]string{"match": c.Debug, "datum": root.String(),
 			"eq/ne": outs[bx.OpEq].String() + outs[bx.OpNe].String(), "in/notin": outs[bx.OpIn].String() + outs[bx.OpNotIn].String()}, classes...)
 	})
+}
+
+// TestC04_Matrix runs the complement relations over the exhaustive specimen
+// matrix of C09 (every kind and container oddity) with literals that include
+// values overflowing narrow key / element types.
+func TestC04_Matrix(t *testing.T) {
+	r := rec(t, "C04", c04Rule)
+	r.Exhaustive = true
+	r.ExhaustiveOf = "specimen(kind/container oddity) x wrapper x literal class (incl. width-overflowing numbers) x 4 operator pairs x in/contains"
+	evalCache = map[string]*bexpr.Evaluator{}
+	defer func() { evalCache = nil }()
+	lits := []string{"1", "a", "true", "1.5", "", "(", "99999999999999999999", "-1", "300", "257", "70000", "-129", "4294967297", "0x1", "1e40"}
+	n := 0
+	for _, sp := range c09Specimens() {
+		for _, w := range c09Wrap(sp) {
+			if !bx.Expressible(bx.Sel{Parts: w.sel}) {
+				continue
+			}
+			for _, l := range lits {
+				c := &c04Case{Lit: []byte(l), Datum: w.root, Debug: fmt.Sprintf("%q op %q", w.sel, l)}
+				for _, p := range w.sel {
+					c.Sel = append(c.Sel, []byte(p))
+				}
+				outs := c04Check(t, "TestC04_Matrix", c, bx.Zero{})
+				n++
+				r.Case(c.Debug+"\x00"+w.root.String(), outs[bx.OpIn] != ref.E || outs[bx.OpEq] != ref.E, map[string]string{"match": c.Debug, "datum": w.root.String(),
+					"in/notin": outs[bx.OpIn].String() + outs[bx.OpNotIn].String()}, "kind:"+string(sp.T.K))
+			}
+		}
+	}
+	t.Logf("matrix triples: %d", n)
 }
